@@ -103,7 +103,18 @@ class Values(dict):
         if self.model is not None: return evalnum(self.model, term)
         import z3 as _z
         subs = []
-        return tonum(_z.simplify(term))
+        todo = [term]; seen = set()
+        while todo:
+            x = todo.pop()
+            if x.get_id() in seen: continue
+            seen.add(x.get_id())
+            if _z.is_const(x) and x.decl().kind() == _z.Z3_OP_UNINTERPRETED and str(x) in self:
+                v = self[str(x)]
+                if _z.is_bv(x): subs.append((x, _z.BitVecVal(int(v), x.size())))
+                elif _z.is_real(x): subs.append((x, _z.RealVal(str(fractions.Fraction(float(v))))))
+                elif _z.is_fp(x): subs.append((x, _z.FPVal(float(v), x.sort())))
+            todo.extend(x.children())
+        return tonum(_z.simplify(_z.substitute(term, *subs)))
 
 
 def evalnum(model, v, prec=30):
@@ -142,7 +153,7 @@ class NativeWorld:
         for o in world.objs:
             size = o.size
             if z3.is_expr(size):
-                size = int(values[str(size)]) if str(size) in values else tonum(z3.simplify(size))
+                size = int(values.of(size)) if isinstance(values, Values) else (int(values[str(size)]) if str(size) in values else tonum(z3.simplify(size)))
                 if size > (1 << 26): raise ValueError('object %s too large to instantiate natively (%d bytes)' % (o.name, size))
             self.sizes[o] = size
             raw = (ctypes.c_ubyte * (size + 2 * GUARD))()
@@ -151,6 +162,7 @@ class NativeWorld:
             self.bufs[o] = raw
         for o in world.objs:
             for off, (ty, val) in o.cells.items():
+                if off + TY[ty][0] > self.sizes[o]: continue     # cell lies beyond a symbolic-size object's actual extent
                 self.write(o, off, ty, self._val(ty, val))
     def addr(self, o, off=0): return ctypes.addressof(self.bufs[o]) + GUARD + off
     def _val(self, ty, val):
@@ -411,7 +423,7 @@ def plain_world(world, values):
             else: v = val
             cells.append([off, ty, v])
         size = o.size
-        if z3.is_expr(size): size = int(values[str(size)]) if str(size) in values else tonum(z3.simplify(size))
+        if z3.is_expr(size): size = int(values.of(size)) if isinstance(values, Values) else (int(values[str(size)]) if str(size) in values else tonum(z3.simplify(size)))
         objs.append({'name': o.name, 'size': min(size, 1 << 26), 'zero': o.zero_default, 'cells': cells})
     return objs
 
